@@ -40,54 +40,54 @@ structure Read where
 deriving Repr, DecidableEq
 
 /-- `consume_delimited('"')` followed by the closing-quote check of `consume_str`, from the character after the opening
-    quote; `none` = "unclosed string literal" -/
-def readBody (text : Str) (acc : Str) (w : Nat) : Option Read :=
-  match text with
-  | [] => none
-  | c :: rest =>
+    quote; `none` = "unclosed string literal". Every iteration of the Python loop consumes at least one character, so
+    `fuel > text.length` never runs out (`read` supplies that much). -/
+def readBody : Nat → Str → Str → Nat → Option Read
+  | 0, _, _, _ => none
+  | _ + 1, [], _, _ => none
+  | fuel + 1, c :: rest, acc, w =>
     if c = 34 then some ⟨acc, rest, w⟩
     else if c = 92 then
-      match hr : rest with
+      match rest with
       | [] => none                                     -- backslash at the end of the text
       | p :: rest1 =>
         if p = 120 then                                 -- \x
-          match hr1 : rest1 with
+          match rest1 with
           | h1 :: h2 :: rest3 =>
-            if isHex h1 && isHex h2 then readBody rest3 (acc ++ [hexVal h1 * 16 + hexVal h2]) w
-            else readBody rest1 (acc ++ [120]) (w + 1)
-          | _ => readBody rest1 (acc ++ [120]) (w + 1)
+            if isHex h1 && isHex h2 then readBody fuel rest3 (acc ++ [hexVal h1 * 16 + hexVal h2]) w
+            else readBody fuel rest1 (acc ++ [120]) (w + 1)
+          | _ => readBody fuel rest1 (acc ++ [120]) (w + 1)
         else if isDigit p then
           -- up to three digits; a digit 8 or 9 among them makes the whole escape invalid
-          match hr1 : rest1 with
+          match rest1 with
           | d2 :: rest2 =>
             if isDigit d2 then
-              match hr2 : rest2 with
+              match rest2 with
               | d3 :: rest3 =>
                 if isDigit d3 then
-                  (if isOct p && isOct d2 && isOct d3 then readBody rest3 (acc ++ [(p - 48) * 64 + (d2 - 48) * 8 + (d3 - 48)]) w
-                   else readBody rest1 (acc ++ [p]) (w + 1))
+                  (if isOct p && isOct d2 && isOct d3 then
+                     readBody fuel rest3 (acc ++ [(p - 48) * 64 + (d2 - 48) * 8 + (d3 - 48)]) w
+                   else readBody fuel rest1 (acc ++ [p]) (w + 1))
                 else
-                  (if isOct p && isOct d2 then readBody rest2 (acc ++ [(p - 48) * 8 + (d2 - 48)]) w
-                   else readBody rest1 (acc ++ [p]) (w + 1))
+                  (if isOct p && isOct d2 then readBody fuel rest2 (acc ++ [(p - 48) * 8 + (d2 - 48)]) w
+                   else readBody fuel rest1 (acc ++ [p]) (w + 1))
               | [] =>
-                (if isOct p && isOct d2 then readBody rest2 (acc ++ [(p - 48) * 8 + (d2 - 48)]) w
-                 else readBody rest1 (acc ++ [p]) (w + 1))
+                (if isOct p && isOct d2 then readBody fuel rest2 (acc ++ [(p - 48) * 8 + (d2 - 48)]) w
+                 else readBody fuel rest1 (acc ++ [p]) (w + 1))
             else
-              (if isOct p then readBody rest1 (acc ++ [p - 48]) w else readBody rest1 (acc ++ [p]) (w + 1))
-          | [] => (if isOct p then readBody rest1 (acc ++ [p - 48]) w else readBody rest1 (acc ++ [p]) (w + 1))
-        else if p = 110 then readBody rest1 (acc ++ [10]) w
-        else if p = 116 then readBody rest1 (acc ++ [9]) w
-        else if p = 92 then readBody rest1 (acc ++ [92]) w
-        else if p = 34 then readBody rest1 (acc ++ [34]) w
-        else readBody rest1 (acc ++ [92, p]) (w + 1)   -- unrecognized escape: kept as two characters, with a warning
-    else readBody rest (acc ++ [c]) w
-termination_by text.length
-decreasing_by all_goals (simp_wf; (try subst_vars); (try simp only [List.length_cons]); omega)
+              (if isOct p then readBody fuel rest1 (acc ++ [p - 48]) w else readBody fuel rest1 (acc ++ [p]) (w + 1))
+          | [] => (if isOct p then readBody fuel rest1 (acc ++ [p - 48]) w else readBody fuel rest1 (acc ++ [p]) (w + 1))
+        else if p = 110 then readBody fuel rest1 (acc ++ [10]) w
+        else if p = 116 then readBody fuel rest1 (acc ++ [9]) w
+        else if p = 92 then readBody fuel rest1 (acc ++ [92]) w
+        else if p = 34 then readBody fuel rest1 (acc ++ [34]) w
+        else readBody fuel rest1 (acc ++ [92, p]) (w + 1)   -- unrecognized escape: kept as two characters, with a warning
+    else readBody fuel rest (acc ++ [c]) w
 
 /-- the lexer on a text that starts with `"` -/
 def read (text : Str) : Option Read :=
   match text with
-  | 34 :: rest => readBody rest [] 0
+  | 34 :: rest => readBody (rest.length + 1) rest [] 0
   | _ => none
 
 end StrLit
